@@ -55,6 +55,9 @@ PROP = [  # (subject fragment, property ids, key that used to be reported)
  ("a '-Subproject commit' line without its '+' counterpart was dropped", 'C01', "c01: '-Subproject commit <hash>' of a deleted submodule / first hunk line '-Subproject commit <not a hash>' missing from the output (found from a sub-agent's note)"),
  ("in 'diff -u' output an added line '++ x' inside a hunk was taken for a '+++ ' file header line", 'C14,C01', "c14:header-duplicated-or-early (plain diff, added line '++ x'; found from a sub-agent's note)"),
  ("second of two 'diff -u' sections about the same two files got no file header", 'C14,C10', "c14:header-missing / c10:concat (plain diff, same file pair twice; found from a sub-agent's note)"),
+ ('any JSON line with "type" begin/end/summary was silently dropped', 'C04', "c04:line-altered (a structured-log line such as {\"level\":\"info\",\"type\":\"end\"} vanished; found from a sub-agent's note)"),
+ ("--no-gitconfig --features <builtin feature> did not enable the features that feature enables", 'C13', "c13:no-gitconfig-differs-from-empty-config (found from a sub-agent's note; family added)"),
+ ("--show-config named palette colours 8-15 differently from run to run", 'C13', "c13:nondeterministic-text:* (found from a sub-agent's note; raw text of repeated runs is compared now)"),
  ("lines differing by a zero-width character were paired at --max-line-distance 0", 'C06', "c06:distance-0-pairing / :sbs ('<U+0308>key' paired with ' key   ' at distance 0; found by the thorough tier)"),
 ]
 log = subprocess.run(['git', '-C', '/repo', 'log', '--format=%H%x09%s', '--reverse'], stdout=subprocess.PIPE).stdout.decode().splitlines()
